@@ -428,3 +428,117 @@ def hidi_toml_cases(seed, tier):
     texts += ["", "[HIDI]\n", "HIDI = 1\n", "[hidi]\npool_rate = 1\n", "[HIDI]\npool_rate = 0\ndiscovery_rate = 0\n",
               "[[HIDI]]\npool_rate = 1\n", "HIDI.pool_rate = 5\nHIDI.discovery_rate = 1\n", "\x00\x01", "[HIDI\n", "[HIDI]\npool_rate = \n"]
     return texts
+
+
+# ---------------------------------------------------------------------------------------------
+# end to end: a description as the device engine's abstract configuration
+
+EV_NAMES = {v: k for k, v in KEYS.items()}
+ABS_NAMES = {v: k for k, v in ABS.items()}
+
+
+def desc_to_cfg(d, sub=""):
+    """The abstract device configuration (spec/Device.tla cfg record) a description means, restricted to the
+    sub-handler `sub`.  Returns None when the description uses something the engine model does not read
+    (required fields missing)."""
+    maps = []
+    for m in d["maps"]:
+        keys, axes = {}, {}
+        for s in m["keys"]:
+            if s["sub"] != sub:
+                continue
+            for k in s["map"]:
+                keys[EV_NAMES[k["code"]]] = {"n": k["val"], "o": k["off"] if k["hasoff"] else 0}
+        for s in m["analog"]:
+            if s["sub"] != sub:
+                continue
+            dz = {z["code"]: z["v"] for z in s["dz"]}
+            for a in s["map"]:
+                if (a["type"] == "cc" and not a["hascc"]) or (a["type"] == "key" and not a["hasnote"]) or (a["type"] == "action" and not a["hasact"]):
+                    return None
+                from fractions import Fraction
+                v = dz.get(a["code"], s["dd"] if s["dd"] != "none" else "0")
+                fr = Fraction(v)
+                bidi = {"cc": a["hasccn"], "key": a["hasnoten"], "action": a["hasactn"], "pitch_bend": False}[a["type"]]
+                axes[ABS_NAMES[a["code"]]] = {
+                    "type": a["type"], "cc": a["cc"], "ccNeg": a["ccn"] if a["hasccn"] else 0, "note": a["note"],
+                    "noteNeg": a["noten"] if a["hasnoten"] else 0,
+                    "off": a["off"] if a["hasoff"] and a["type"] != "action" else 0,
+                    "offNeg": a["offn"] if a["hasoffn"] and a["type"] in ("cc", "key") else 0,
+                    "act": a["act"], "actNeg": a["actn"] if a["hasactn"] else "", "bidi": bidi,
+                    "flip": a["flip"] if a["hasflip"] else False, "centre": a["centre"] if a["hascentre"] else False,
+                    "dzn": fr.numerator, "dzd": fr.denominator, "dzsrc": "specific" if a["code"] in dz else "handler"}
+        maps.append({"name": m["name"], "keys": keys, "axes": axes})
+    names = [m["name"] for m in d["maps"]]
+    return {"mode": d["mode"], "exit": [EV_NAMES[k["code"]] for k in d["exit"]], "vel": d["defaults"]["velocity"] or 64,
+            "dOct": d["defaults"]["octave"], "dSemi": d["defaults"]["semitone"], "dChan": d["defaults"]["channel"] - 1,
+            "dMap": len(names) - names[::-1].index(d["defaults"]["mapping"]),
+            "actions": {EV_NAMES[a["code"]]: a["a"] for a in d["actions"]}, "maps": maps, "axinfo": {}}
+
+
+def end_to_end_batches(seed, tier):
+    """Valid descriptions rendered as TOML, parsed by the real ParseData, the device built from the result and driven by a
+    script over the default mapping: every key pressed and released (overlapping), every axis over its range; the engine
+    model runs on the configuration the description means."""
+    import devdrivers
+    rng = random.Random(seed * 1009 + 17)
+    n = 25 if tier == "quick" else 250
+    batches = []
+    tries = 0
+    while len(batches) < n and tries < n * 20:
+        tries += 1
+        d = valid_desc(rng, full=(tries % 3 == 0))
+        if d["defaults"]["channel"] not in range(1, 17):
+            continue
+        for m in d["maps"]:      # one sub-handler: the events of a life come from one handler
+            for s in m["keys"]:
+                s["sub"] = ""
+            m["keys"] = m["keys"][:1]
+            for s in m["analog"]:
+                s["sub"] = ""
+            m["analog"] = m["analog"][:1]
+            for s in m["analog"]:
+                for a in s["map"]:
+                    a["centre"] = False          # deadzone_at_center only on axes with min 0 (chosen below)
+                    a["hascentre"] = False
+                    if a["type"] == "action":    # keep state changes out of the script's way (cc-learning would gate the
+                        a["act"], a["actn"] = "mapping", "multinote"   # key-emulating axes: observation O1, outside C08)
+        d["exit"] = []
+        # keys that are both an action and a note are actions for the engine: drop the note role
+        acts = {a["code"] for a in d["actions"]}
+        for m in d["maps"]:
+            for s in m["keys"]:
+                s["map"] = [k for k in s["map"] if k["code"] not in acts]
+        d["actions"] = [a for a in d["actions"] if a["a"] in ("panic", "multinote", "channel", "mapping", "exit")]
+        cfg = desc_to_cfg(d)
+        if cfg is None:
+            continue
+        sp = ["inline", "header", "dotted"][len(batches) % 3]
+        mp = cfg["maps"][cfg["dMap"] - 1]
+        info = {}
+        for a in mp["axes"]:
+            info[a] = rng.choice([{"min": -128, "max": 127}, {"min": 0, "max": 255}, {"min": -1, "max": 1}])
+        for m in cfg["maps"]:
+            for a in m["axes"]:
+                info.setdefault(a, {"min": -128, "max": 127})
+        cfg["axinfo"] = info
+        w = []
+        ks = sorted(mp["keys"])
+        for k in ks:
+            w.append({"ev": "press", "k": k})
+        for k in ks:
+            w.append({"ev": "release", "k": k})
+        for a in sorted(mp["axes"]):
+            mn, mx = info[a]["min"], info[a]["max"]
+            pts = [mn, mx, (mn + mx) // 2, mx, 0 if mn < 0 else mx // 2, mn, (mn + mx) // 2 + 1] + [rng.randint(mn, mx) for _ in range(12)]
+            pts.append(0 if mn < 0 else (mn + mx) // 2 + 1)
+            for p in pts:
+                if not any(a in m["axes"] and devdrivers.on_float_boundary(info[a], m["axes"][a], p) for m in cfg["maps"]):
+                    w.append({"ev": "axis", "a": a, "raw": p})
+        for k in sorted(cfg["actions"]):
+            w += [{"ev": "press", "k": k}, {"ev": "release", "k": k}]
+        for k in ks[:3]:
+            w += [{"ev": "press", "k": k}]
+        w.append({"ev": "disconnect"})
+        batches.append({"cfg": cfg, "cfgmode": "toml", "toml": render(d, sp), "sub": "", "optional": True, "walks": [w]})
+    return batches
